@@ -61,7 +61,7 @@ def run_cases(rep, tier, seed, prop, impl, model):
             long_actions = False
         else:
             if kind == 0:
-                kw = {"fail_at": rng.below(50), "tolerated": True}
+                kw = {"fail_at": rng.below(50), "tolerated": True, "fail_code": -9 if idx % 12 == 0 else 3}
             if kind == 1:
                 repeat = {"count": 2}
             # actions shorter than the tempo in several acts: only the tempo keeps the groups apart
@@ -70,6 +70,10 @@ def run_cases(rep, tier, seed, prop, impl, model):
         if repeat:
             # repeat from the act containing some scene char of the last act
             ch = [c for c in g["acts"][-1] if c.isalpha()][0]
+            # prefer a scene that also occurs in an earlier act: the repetition starts at the FIRST act that matches
+            multi = [c for c in g["acts"][-1] if c.isalpha() and any(c in a for a in g["acts"][:-1])]
+            if multi and rng.chance(2, 3):
+                ch = multi[0]
             g = playgen.gen_play(SplitMix(seed * 1000 + idx), nacts=len(g["acts"]), spotlight=spot, long_actions=long_actions,
                                  repeat={"from": ch, "count": repeat["count"]}, **kw)
             g["repeat_count"] = repeat["count"]
@@ -100,6 +104,14 @@ def run_cases(rep, tier, seed, prop, impl, model):
         if m:
             from_act = int(m.group(1))
             count = g.get("repeat_count", -1)
+        if g.get("repeat_char"):
+            # the documented rule, evaluated here: the repetition starts at the first act the expression matches
+            story = pr.get("Story") or []
+            want = next((i + 1 for i, a in enumerate(story) if g["repeat_char"] in a), 0)
+            if want != from_act:
+                ofail.append({"config": g["text"], "problems": ["`repeat from %s`: the play repeats from act %d, the first act that matches is act %d (storyline %s)" % (g["repeat_char"], from_act, want, story)],
+                              "tag": {"kind": "repeat-start"}})
+                from_act = want
         failing = [p for p, (ac, an, fo) in pos.items() if an in g["failing"]]
         ftok = ",".join("%d.%d.%d.%d" % p for p in failing) or "-"
         ms = model.ask("C04 perform %s %d:%d:0 %s -" % (ptok, from_act, count, ftok))
@@ -133,6 +145,17 @@ def run_cases(rep, tier, seed, prop, impl, model):
             tag = {"kind": "performed-set", "exit0": r["rc"] == 0, "spotlight": "self-exit" if "spotlight echo" in g["text"] or "spotlight true" in g["text"] or "spotlight sleep 0.05" in g["text"] else ("running" if "spotlight" in g["text"] else "none")}
             ofail.append({"config": g["text"], "problems": problems, "rc": r["rc"], "stderr": (r["stderr"] or "")[-1200:], "tag": tag})
             continue
+        # ---- O: a command that died from a signal (no `B` record of its own) is recorded as failed ----
+        if recs and any(e["stop"] is None for _, e in recs) and not r["timed_out"]:
+            killed_bad = []
+            for actor in g["actors"]:
+                rows = playgen.parse_actor_csv(r["csv"].get(actor + ".csv", ""))
+                for e in [e for _, e in recs if e["actor"] == actor and e["stop"] is None and g["actions"].get(e["action"], [0, 0])[1] < 0]:
+                    mine = [row for row in rows if row["action"] == e["action"]]
+                    if mine and all(row["status"] == 0 for row in mine):
+                        killed_bad.append("%s.%s was killed by a signal but is recorded with status 0" % (actor, e["action"]))
+            if killed_bad:
+                ofail.append({"config": g["text"], "problems": killed_bad, "tag": {"kind": "recorded-vs-experienced", "detail": "killed"}})
         # ---- O: ordering, barrier and tempo inequalities on the observed trace -------------------
         if recs and all(e["stop"] is not None for _, e in recs):
             occ_acts = []
